@@ -84,11 +84,13 @@ ENV_EXPORTS_SOURCE = (
     "sexp_gc_release1(ctx); return res; }")
 
 
-def check_env_exports_source(P, ctx):
+def check_env_exports_source(P, ctx, d=None):
     """(G, by comparison) ExportAll.env_exports mirrors sexp_env_exports_op: the function's text (comments and layout removed) must be the
-    one the model was written from.  Fails closed."""
+    one the model was written from.  Fails closed.  The text is read from the scratch BUILD directory (the copy of the tree that was
+    compiled and is being run), not from the live working tree, which may change while a long run is under way."""
     try:
-        ev = open(os.path.join(P.B.REPO, "eval.c")).read()
+        src = os.path.join(d, "eval.c") if d and os.path.exists(os.path.join(d, "eval.c")) else os.path.join(P.B.REPO, "eval.c")
+        ev = open(src).read()
     except OSError as e:
         ctx.broken("gen:sexp_env_exports_op", "source not readable: %s" % e)
         return
@@ -242,7 +244,7 @@ X_PRELUDE = """(import (scheme base) (scheme eval) (scheme write) (only (chibi) 
 
 
 def run_export_all(P, ctx, d, spec_exe, moddir, rng, n_graphs, n_cases):
-    check_env_exports_source(P, ctx)
+    check_env_exports_source(P, ctx, d)
     graphs = [gen_xgraph(P, rng, "x%d" % k) for k in range(n_graphs)]
     # the model says what B exports once loaded
     outs = ctx.run_model(spec_exe, ["exports (%s) (%s)" % (" ".join(P.sym(n) for n in g["imported"]), " ".join(
